@@ -587,10 +587,11 @@ def unalias_callees(tree):
     def process(fn):
         if any(isinstance(n, (ast.Global, ast.Nonlocal)) for n in ast.walk(fn)):
             return
-        name_stores, attr_stores = {}, set()
+        name_stores, attr_stores, store_lines = {}, set(), {}
         for n in ast.walk(fn):
             if isinstance(n, ast.Name) and isinstance(n.ctx, (ast.Store, ast.Del)):
                 name_stores[n.id] = name_stores.get(n.id, 0) + 1
+                store_lines.setdefault(n.id, []).append(getattr(n, 'lineno', 0))
             elif isinstance(n, ast.Attribute) and isinstance(n.ctx, (ast.Store, ast.Del)):
                 c = chain_of(n)
                 if c:
@@ -609,7 +610,8 @@ def unalias_callees(tree):
                     name, c = st.targets[0].id, chain_of(st.value)
                     uses = [n for n in ast.walk(fn) if isinstance(n, ast.Name) and n.id == name and isinstance(n.ctx, ast.Load)]
                     if c and name_stores.get(name) == 1 and name not in params and uses and all(id(u) in callees for u in uses) \
-                            and (c[0] == 'super()' or name_stores.get(c[0], 0) <= (1 if c[0] in params else 0)) \
+                            and (c[0] == 'super()' or name_stores.get(c[0], 0) <= (1 if c[0] in params else 0)
+                                 or (c[0] not in params and name_stores.get(c[0]) == 1 and store_lines[c[0]][0] < st.lineno)) \
                             and not any(c[:k] in attr_stores for k in range(2, len(c) + 1)) \
                             and all(getattr(u, 'lineno', 0) >= st.lineno for u in uses):
                         subst[name] = (st, st.value)
